@@ -47,9 +47,13 @@ func OddSpecs(full bool) []string {
 		func(t string) string { return "A:\n    !union T:\n        " + t + "\n" },
 		func(t string) string { return "A:\n    Ep (p <: " + t + "):\n        ...\n" },
 		func(t string) string { return "A:\n    /x:\n        POST (p <: " + t + " [~body]):\n            ...\n" },
-		func(t string) string { return "A:\n    /x/{id <: " + strings.TrimSuffix(t, "?") + "}:\n        GET:\n            ...\n" },
+		func(t string) string {
+			return "A:\n    /x/{id <: " + strings.TrimSuffix(t, "?") + "}:\n        GET:\n            ...\n"
+		},
 		func(t string) string { return "A:\n    /x:\n        GET ?q=" + t + ":\n            ...\n" },
-		func(t string) string { return "A:\n    !view v(p <: " + t + ") -> " + t + ":\n        p -> (:\n            x = p\n        )\n" },
+		func(t string) string {
+			return "A:\n    !view v(p <: " + t + ") -> " + t + ":\n        p -> (:\n            x = p\n        )\n"
+		},
 		func(t string) string { return "A:\n    Ep:\n        return ok <: " + t + "\n" },
 		func(t string) string { return "A:\n    Ep:\n        B <- Ep2 (a <: " + t + ")\n" },
 		func(t string) string { return "A:\n    <-> Ev (p <: " + t + "):\n        ...\n" },
@@ -82,7 +86,9 @@ func OddSpecs(full bool) []string {
 		func(n string) string { return "A:\n    /x/{" + n + "}:\n        GET:\n            ...\n" },
 		func(n string) string { return "A:\n    /x/{" + n + " <: int}:\n        GET:\n            ...\n" },
 		func(n string) string { return "A:\n    /x:\n        GET ?" + n + "=int:\n            ...\n" },
-		func(n string) string { return "A:\n    /x:\n        GET ?q=" + n + "&r={" + n + "}:\n            ...\n" },
+		func(n string) string {
+			return "A:\n    /x:\n        GET ?q=" + n + "&r={" + n + "}:\n            ...\n"
+		},
 		func(n string) string { return "A:\n    Ep:\n        " + n + " <- X\n" },
 		func(n string) string { return "A:\n    Ep:\n        B <- " + n + "\n" },
 		func(n string) string { return "A:\n    Ep:\n        B <- GET /" + n + "\n" },
@@ -94,7 +100,9 @@ func OddSpecs(full bool) []string {
 		func(n string) string { return "A:\n    Ep:\n        return ok <: " + n + " [mediatype=\"x\"]\n" },
 		func(n string) string { return "A:\n    Ep:\n        if " + n + ":\n            ...\n" },
 		func(n string) string { return "A:\n    Ep:\n        " + n + ":\n            x\n" },
-		func(n string) string { return "A:\n    Ep:\n        one of:\n            " + n + ":\n                x\n" },
+		func(n string) string {
+			return "A:\n    Ep:\n        one of:\n            " + n + ":\n                x\n"
+		},
 		func(n string) string { return "A:\n    Ep:\n        B <- X (" + n + ")\n" },
 		func(n string) string { return "A:\n    Ep:\n        B <- X (" + n + " <: int)\n" },
 		func(n string) string { return "A:\n    <-> " + n + ":\n        ...\n" },
@@ -104,16 +112,30 @@ func OddSpecs(full bool) []string {
 		func(n string) string { return "A [" + n + "=\"v\"]:\n    ...\n" },
 		func(n string) string { return "A [~" + n + "]:\n    ...\n" },
 		func(n string) string { return "A:\n    @" + n + " = \"v\"\n    ...\n" },
-		func(n string) string { return "A:\n    .. * <- *:\n        " + n + " [~x]\n    " + n + ":\n        ...\n" },
+		func(n string) string {
+			return "A:\n    .. * <- *:\n        " + n + " [~x]\n    " + n + ":\n        ...\n"
+		},
 		func(n string) string { return "A:\n    .. * <- *:\n        B <- " + n + " [~x]\n" },
 		func(n string) string { return "A:\n    .. * <- *:\n        GET /" + n + " [~x]\n" },
 		func(n string) string { return "A:\n    .. * <- *:\n        S <- " + n + " -> E [~x]\n" },
-		func(n string) string { return "A:\n    !view " + n + "(p <: int) -> int:\n        p -> (:\n            x = p\n        )\n" },
-		func(n string) string { return "A:\n    !view v(" + n + " <: int) -> int:\n        " + n + " -> (:\n            x = 1\n        )\n" },
-		func(n string) string { return "A:\n    !view v(p <: int) -> int:\n        p -> (:\n            " + n + " = 1\n        )\n" },
-		func(n string) string { return "A:\n    !view v(p <: int) -> int:\n        p -> (:\n            x = " + n + "\n        )\n" },
-		func(n string) string { return "A:\n    !view v(p <: int) -> int:\n        p -> (:\n            x = " + n + "(1)\n        )\n" },
-		func(n string) string { return "A:\n    !view v(p <: int) -> int:\n        p -> (:\n            x = p." + n + "\n        )\n" },
+		func(n string) string {
+			return "A:\n    !view " + n + "(p <: int) -> int:\n        p -> (:\n            x = p\n        )\n"
+		},
+		func(n string) string {
+			return "A:\n    !view v(" + n + " <: int) -> int:\n        " + n + " -> (:\n            x = 1\n        )\n"
+		},
+		func(n string) string {
+			return "A:\n    !view v(p <: int) -> int:\n        p -> (:\n            " + n + " = 1\n        )\n"
+		},
+		func(n string) string {
+			return "A:\n    !view v(p <: int) -> int:\n        p -> (:\n            x = " + n + "\n        )\n"
+		},
+		func(n string) string {
+			return "A:\n    !view v(p <: int) -> int:\n        p -> (:\n            x = " + n + "(1)\n        )\n"
+		},
+		func(n string) string {
+			return "A:\n    !view v(p <: int) -> int:\n        p -> (:\n            x = p." + n + "\n        )\n"
+		},
 		func(n string) string { return "A:\n    !wrap " + n + ":\n        !table T\n" },
 		func(n string) string { return "A:\n    !wrap M:\n        !table " + n + "\n" },
 		func(n string) string { return "import " + n + "\nA:\n    ...\n" },
@@ -144,9 +166,9 @@ func OddSpecs(full bool) []string {
 		for _, l := range leaf {
 			bodies = append(bodies, b+"\n    "+l+"\n")
 		}
-		bodies = append(bodies, b+"\n")                            // empty block
-		bodies = append(bodies, "if a:\n    x\n"+b+"\n    y\n")     // after an if
-		bodies = append(bodies, "x\n"+b+"\n    y\nz\n")            // in the middle
+		bodies = append(bodies, b+"\n")                         // empty block
+		bodies = append(bodies, "if a:\n    x\n"+b+"\n    y\n") // after an if
+		bodies = append(bodies, "x\n"+b+"\n    y\nz\n")         // in the middle
 		for _, b2 := range blocks {
 			bodies = append(bodies, b+"\n    "+b2+"\n        x\n") // nested
 		}
@@ -173,7 +195,9 @@ func OddSpecs(full bool) []string {
 		func(a string) string { return "A:\n    Ep " + a + ":\n        ...\n" },
 		func(a string) string { return "A:\n    Ep (p <: int " + a + "):\n        ...\n" },
 		func(a string) string { return "A:\n    /x " + a + ":\n        GET " + a + ":\n            ...\n" },
-		func(a string) string { return "A:\n    /x:\n        GET (p <: int " + a + ") ?q=int " + a + ":\n            ...\n" },
+		func(a string) string {
+			return "A:\n    /x:\n        GET (p <: int " + a + ") ?q=int " + a + ":\n            ...\n"
+		},
 		func(a string) string { return "A:\n    <-> Ev " + a + ":\n        ...\n" },
 		func(a string) string { return "A:\n    B -> Ev " + a + ":\n        ...\n" },
 		func(a string) string { return "A:\n    Ep:\n        x " + a + "\n" },
@@ -181,7 +205,9 @@ func OddSpecs(full bool) []string {
 		func(a string) string { return "A:\n    Ep:\n        return ok <: string " + a + "\n" },
 		func(a string) string { return "A:\n    Ep:\n        if c " + a + ":\n            x\n" },
 		func(a string) string { return "A:\n    .. * <- *:\n        Ep " + a + "\n    Ep:\n        ...\n" },
-		func(a string) string { return "A:\n    !view v(p <: int) -> int " + a + ":\n        p -> (:\n            x = p\n        )\n" },
+		func(a string) string {
+			return "A:\n    !view v(p <: int) -> int " + a + ":\n        p -> (:\n            x = p\n        )\n"
+		},
 	}
 	for _, c := range actx {
 		for _, a := range attrs {
@@ -197,7 +223,9 @@ func OddSpecs(full bool) []string {
 		func(a string) string { return "A:\n    !alias L:\n" + indent(a, 2) + "        int\n" },
 		func(a string) string { return "A:\n    !union U:\n" + indent(a, 2) + "        int\n" },
 		func(a string) string { return "A:\n    Ep:\n" + indent(a, 2) + "        ...\n" },
-		func(a string) string { return "A:\n    /x:\n" + indent(a, 2) + "        GET:\n" + indent(a, 3) + "            ...\n" },
+		func(a string) string {
+			return "A:\n    /x:\n" + indent(a, 2) + "        GET:\n" + indent(a, 3) + "            ...\n"
+		},
 		func(a string) string { return "A:\n    !view v(p <: int) -> int [abstract]\n" },
 		func(a string) string { return "A:\n    !view v(p <: int) -> int abstract:\n" + indent(a, 2) },
 	}
